@@ -1,4 +1,4 @@
-\* the lock-step sub-behaviours used for generation satisfy the same properties (pool as written, dispatch level)
+\* quick: the lock-step sub-behaviours used for generation satisfy the same properties (pool as written, dispatch level)
 CONSTANTS
   c1 = c1
   c2 = c2
@@ -6,18 +6,19 @@ CONSTANTS
   w1 = w1
   w2 = w2
   w3 = w3
-  Clients <- CS2
+  Clients <- CS1
   MaxMsgs = 2
-  MaxPings = 1
+  MaxPings = 0
   Workers <- WS2
   Heartbeat = FALSE
   Reply <- ReplyChat
-  ExtScript <- ExtBoth
+  ExtScript <- ExtNone
   Mode = "lockstep"
   ShutdownMode = "any"
   Dev = {"InvocationInversion"}
 INIT Init
 NEXT Next
 SYMMETRY Sym
+VIEW MCView
 INVARIANTS TypeOK CurInStreams DispatchInvs DeliveryInvs
 CHECK_DEADLOCK FALSE
